@@ -235,7 +235,7 @@ def _is_proper_subterm(sub, top, I):
             seen += 1
             continue
         if z3.is_const(t) and t.get_id() in elem_parent:
-            t = elem_parent[t.get_id()]
+            t = z3.simplify(elem_parent[t.get_id()])      # (e.g. vl(VList(vd(obj))) for the items of a dict: vd(obj))
             seen += 1
             continue
         if z3.is_app(t) and t.decl().name() == "if":
